@@ -53,8 +53,26 @@ def make_case(rng, i, tier):
         if rng.random() < 0.4:
             spec["pad"] = rng.randrange(0, 150)
         seqs.append(spec)
+    if i % 9 == 4:
+        # chains over three and more inputs: B abuts A, C starts inside B (and sometimes D inside C) on one channel and pitch —
+        # the fused note runs from the earliest start to the latest end whatever the merge order
+        import random
+        r5 = random.Random(f"c15-chain:{i}")
+        c, p = r5.choice([0, 1]), pitches[0]
+        t0, la = r5.randrange(0, 20), r5.randint(4, 20)
+        lb, lc = r5.randint(6, 20), r5.randint(4, 30)
+        chain = [[c, p, t0, la, 91], [c, p, t0 + la, lb, 92], [c, p, t0 + la + r5.randint(1, lb - 1), lc, 93]]
+        if r5.random() < 0.4:
+            chain.append([c, p, chain[2][2] + r5.randint(1, lc), r5.randint(2, 25), 94])
+        if r5.random() < 0.5:
+            seqs = []        # the chain alone ...
+        for note in chain:
+            seqs.append({"notes": [note], "extra": [], "start": r5.choice(["abs", "rel", "both"])})
+        k = len(seqs)
     perm = list(range(k))
     rng.shuffle(perm)
+    if i % 18 == 4:
+        perm = list(range(k))    # ... and sometimes merged exactly in chain order
     prefixes = [[op for op in random_prefix(rng, n=(1, 2)) if op["op"] != "merge_empty"] if (i % 4 == 3 and rng.random() < 0.6) else [] for _ in seqs]
     return {"seqs": seqs, "perm": perm, "into_empty": rng.random() < 0.5, "prefixes": prefixes}
 
